@@ -83,7 +83,7 @@ def run_shard(spec, rec):
     rng = rng_for(spec['seed'], ID, spec['label'])
     vals = small_values(fam, rng)
     for i in range(spec['cases']):
-        impl = 'c' if (i % 2 == 0 or spec['variant'] == 'asan') else 'py'
+        impl = 'c' if (i % 2 == 0 or spec['variant'] in ('asan', 'vg')) else 'py'
         if i % 50 == 0:
             uni = fam.key_universe(rng, n=rng.choice([6, 12, 20]))
         run_case(fam, impl, rng, rec, uni, vals, i)
